@@ -62,6 +62,9 @@ def main():
         status, fired = res[seed]
         mp = os.path.join(VERIF, 'seeded', seed, 'meta.json')
         meta = json.load(open(mp))
+        if meta.get('kind') == 'obsolete':
+            print(f'{seed:10s} obsolete     (no longer breaking on the current tree)')
+            continue
         twin = meta.get('kind') == 'twin'
         own = seed.split('-')[0]
         mark = ''
